@@ -212,6 +212,31 @@ def exec_workload(case):
                     exp = [start] * min(gd["concurrency"], n)
                     if rels != exp:
                         bad("release_times_closed_loop", f"{gname}: initial releases {rels} expected {exp}")
+                    else:
+                        # drive the loop the way the simulator does: every completion instantiates the next invocation,
+                        # released 1us later, until N exist; the follow-ups are judged like the initial ones below
+                        in_flight = list(tgs)
+                        clock = start
+                        while in_flight and len(tgs) <= n + 1:
+                            clock += 7
+                            done = in_flight.pop(0)
+                            before = set(wl.task_graphs)
+                            wl.notify_task_graph_completion(done, build.T(clock))
+                            fresh = [wl.task_graphs[k] for k in wl.task_graphs if k not in before]
+                            if len(fresh) > 1:
+                                bad("closed_loop_followups", f"{gname}: one completion instantiated {len(fresh)} invocations")
+                            for tg in fresh:
+                                if us(tg.release_time) != clock + 1:
+                                    bad("closed_loop_followup_release", f"{tg.name}: released at {us(tg.release_time)} after a completion at {clock}")
+                                tgs.append(tg)
+                                in_flight.append(tg)
+                            if len(in_flight) > gd["concurrency"]:
+                                bad("closed_loop_concurrency", f"{gname}: {len(in_flight)} invocations in flight, concurrency {gd['concurrency']}")
+                                break
+                        if len(tgs) != n:
+                            bad("closed_loop_total", f"{gname}: {len(tgs)} invocations after driving the loop, {n} declared")
+                        if len(tgs) > min(gd["concurrency"], n):
+                            res.counters["closed_loop_followups_checked"] = res.counters.get("closed_loop_followups_checked", 0) + len(tgs) - min(gd["concurrency"], n)
                 # ---- every invocation is a fresh isomorphic copy -----------------------------------
                 edges = sorted((node["name"], c) for node in gd["graph"] for c in node.get("children", []))
                 all_ids = set()
